@@ -14,8 +14,8 @@ Definition set_unlock_schedule_v1 (e : env) (w : world) (start initial times pct
   do_ require ((round e <? conf_start s) || (match sched1 s with None => true | Some _ => false end));
   do_ require (round e <=? start);
   do_ require ((0 <? period) || (initial =? MAX_PERCENTAGE));
-  do_ assert_nopanic (times * pct <? u64_lim);
-  do_ assert_nopanic (initial + times * pct <? u64_lim);
+  do_ require (times * pct <? u64_lim);
+  do_ require (initial + times * pct <? u64_lim);
   do_ require (initial + times * pct =? MAX_PERCENTAGE);
   Ok (set_st w (s <| sched1 := Some (start, initial, times, pct, period) |>)).
 
@@ -151,6 +151,7 @@ Definition try_set_nft_cost (s : state) (tok nonce amt : N) : res state :=
   do_ u64_arg nonce;
   do_ (if tok =? egld then require (nonce =? 0) else require (token_valid tok));
   do_ require (0 <? amt);
+  do_ (if negb (tok =? egld) then require (negb (lp_token s =? tok)) else Ok tt);
   Ok (s <| nft_tok := tok |> <| nft_nonce := nonce |> <| nft_amt := amt |>).
 
 Definition set_nft_cost (e : env) (w : world) (tok nonce amt : N) : res world :=
